@@ -247,7 +247,8 @@ impl<'a> SpecGen<'a> {
         let n_extra = self.rng.below(5);
         let names = self.prop_names(n_extra);
         for n in names {
-            if path_params.contains(&n) { continue; }
+            // `body` is the name libninja gives to an array / free-form request body
+            if path_params.contains(&n) || n == "body" { continue; }
             let loc = ["query", "query", "header", "cookie"][self.rng.below(4)];
             let required = self.rng.chance(1, 3);
             params.push(self.param(&n, loc, required));
